@@ -202,7 +202,7 @@ func theNode(h *harness) *nodeFixture {
 		f.n = node.Start(h.t, node.Options{DIDMethods: []string{"web"}, Verbosity: "error", Env: map[string]string{
 			"NUTS_HTTP_CACHE_MAXBYTES":                "0",
 			"NUTS_DISCOVERY_DEFINITIONS_DIRECTORY":    discoveryDir(h),
-			"NUTS_DISCOVERY_SERVER_IDS":               "c19-service",
+			"NUTS_DISCOVERY_SERVER_IDS":               gridServiceIDs(),
 			"NUTS_POLICY_DIRECTORY":                   policyDir(h),
 			"NUTS_AUTH_AUTHORIZATIONENDPOINT_ENABLED": "true",
 		}})
